@@ -49,6 +49,18 @@ struct Bytes {
     std::string hexs() const { return hex(p, n); }
 };
 
+// Untrusted / output byte buffer at a chosen misalignment: callers hand the library plain byte pointers (void*), which carry no
+// alignment guarantee. The block is exact-size at its END (over-reads/over-writes hit the ASan redzone); `off` bytes of slack
+// precede it so that the buffer start can sit at any address mod 16.
+struct MBytes {
+    uint8_t* base = nullptr; uint8_t* p = nullptr; size_t n = 0;
+    // malloc returns 16-aligned blocks, so p sits at address = want (mod 16) and the block ends exactly at p + n
+    MBytes(size_t n_, size_t want, int fill) { want &= 15; base = (uint8_t*) malloc(n_ + want ? n_ + want : 1); memset(base, fill, n_ + want ? n_ + want : 1); p = base + want; n = n_; }
+    MBytes(const uint8_t* src, size_t n_, size_t want) : MBytes(n_, want, 0) { if (n_) memcpy(p, src, n_); }
+    MBytes(const MBytes&) = delete; MBytes& operator=(const MBytes&) = delete;
+    ~MBytes() { free(base); }
+};
+
 // fixed-size raw library values whose size is identical in every configuration
 struct alignas(16) G1v { uint8_t b[144]; };
 struct alignas(16) G2v { uint8_t b[288]; };
